@@ -239,7 +239,7 @@ JUNK = ["bogus", "prnt r0", "print r8", "print r0 r1", "move r1", "move r1 x1000
         "step in", "break", "break ad x3000", "b", "stepinto -1", "si x", "print 0x", "print ^", "p ^+", "goto ^x8000",
         "move nolabel+1 1", "assembly 1 2", "eval", "echo", "registers now", "quit now", "x x", "continue 1", "p lbl+",
         "print b+2", "goto x80000000g", "print 2147483648", "m r0 0b102", "g \u00e9", "print \U0001F600", "print r1+2", "  ", "",
-        "help me", "p #-0", "p -#0", "p x-0", "p 00", "p 0x0", "p 0o7", "p o8", "move r0 --1", "move r0 +-1", "p -", "p +", "p #", "p ^^"]
+        "\r", " \r ", "bogus\r", "help me", "p #-0", "p -#0", "p x-0", "p 00", "p 0x0", "p 0o7", "p o8", "move r0 --1", "move r0 +-1", "p -", "p +", "p #", "p ^^"]
 
 
 def respell_int(rnd, tok):
@@ -322,7 +322,7 @@ def text_variant(rnd, case):
     parts = []
     for l in out:
         parts.append(l)
-        parts.append(rnd.choice([";", "\n", "; ", " ;", "\n\n", ";;", "\n;"]))
+        parts.append(rnd.choice([";", "\n", "; ", " ;", "\n\n", ";;", "\n;", "\r\n", "\r\n", "\r;"]))   # incl. CRLF line ends
     # transport: the argument, the console stream, or split across both.  The console stream is ONE stream (DbgStream.v):
     # what the debugger does not read of it is the program's input, and the other way round, in the order they ask.
     mode = rnd.choice(["arg", "stream", "split", "split"])
@@ -456,8 +456,16 @@ def cli_shared_stream(ctx, violations, n=24):
                 cmds.insert(rnd.randrange(len(cmds) + 1), "echo " + "".join(rnd.choice(["é", "→", "\U0001F34B", "a", " ", "\U00010000", "\U0010FFFF", "ß", "語"]) for _ in range(rnd.randrange(1, 6))))
         if safe or rnd.random() < 0.7:
             cmds.append(rnd.choice(["quit", "q", "QUIT"]))
-        sep = rnd.choice(["\n", ";", "\n", " ;\n"])
-        script = sep.join(cmds) + rnd.choice(["\n", ";"])
+        if k % 5 == 3:
+            # carriage returns: CRLF line ends (the CR belongs to the debugger's line, not to the program's input), and a CR
+            # inside free text followed by what would be a command if the CR ended the line
+            last_is_quit = bool(cmds) and cmds[-1].lower() in ("quit", "q")
+            cmds.insert(rnd.randrange(len(cmds) + (0 if last_is_quit else 1)), rnd.choice(["echo progress\rreset", "echo done\rexit", "echo a\rmove r0 x41", "echo \rcontinue"]))
+            sep = "\r\n"
+            script = sep.join(cmds) + "\r\n"
+        else:
+            sep = rnd.choice(["\n", ";", "\n", " ;\n"])
+            script = sep.join(cmds) + rnd.choice(["\n", ";"])
         inp = "".join(rnd.choice("XYZ19 ") for _ in range(rnd.randrange(0, 5)))
         src = [ord(c) for c in ECHO2]; stream = list((script + inp).encode("utf-8"))
         nums = [0, 3000, len(src)] + src + [0, 0, len(stream)] + stream
